@@ -2,6 +2,7 @@
 package h05
 
 import (
+	"time"
 	"go.nanomsg.org/mangos/v3"
 	"go.nanomsg.org/mangos/v3/zzverif/verif"
 	"go.nanomsg.org/mangos/v3/zzverif/vp"
@@ -623,5 +624,97 @@ func VH05f_many_contexts() {
 	}
 	verif.Assert(n == want, lab+"/number-of-replies-on-the-wire")
 	verif.Reach("many-contexts-replied")
+	sock.Close()
+}
+
+// VH05g_blocked_reply: a REP / RESPONDENT socket or context with a send deadline answers requests of a stalled peer
+// p0 (WRITEQ-LEN 1) until a reply has to wait. While that Send waits, request B arrives from another peer p1 and a
+// second goroutine receives it on the same object; then the waiting Send's deadline expires. Whatever the object
+// does next - the reply to B is sent - every frame written to a connection carries the routing header of a request
+// that arrived on THAT connection: B's reply goes to p1 with B's header, or nowhere; never to p0, never with a
+// header of p0's requests.
+func VH05g_blocked_reply() {
+	proto := []string{"rep", "respondent"}[verif.Choice("proto", 2)]
+	lab := "C05/" + proto + "/blocked-reply"
+	sock := vp.New(proto)
+	s := &sctx{name: "sock", sock: sock}
+	if verif.Choice("api", 2) == 1 {
+		c, err := sock.OpenContext()
+		verif.Assert(err == nil, lab+"/open-context")
+		if err != nil {
+			return
+		}
+		s = &sctx{name: "ctx", c: c}
+		lab += "/context"
+	}
+	D := time.Second
+	if s.c != nil {
+		verif.Assert(s.c.SetOption(mangos.OptionSendDeadline, D) == nil, lab+"/set-deadline")
+	} else {
+		verif.Assert(sock.SetOption(mangos.OptionSendDeadline, D) == nil, lab+"/set-deadline")
+	}
+	sock.SetOption(mangos.OptionWriteQLen, 1)
+	side := vt.Listen(sock, "a")
+	p0, p1 := side.Peer("p0"), side.Peer("p1")
+	p0.SendMode = vt.SendBlock
+	var blocked *verif.G
+	var berr error
+	for i := 0; i < 5 && blocked == nil; i++ {
+		p0.Deliver([]byte{0x80, 0, 0xA, byte(i), 'a'})
+		verif.Quiesce()
+		if _, rerr := s.recvMsg(); rerr != nil {
+			verif.Fail(lab + "/request-of-the-stalled-peer-not-received")
+			return
+		}
+		r := mangos.NewMessage(2)
+		r.Body = append(r.Body, 'A', byte('0'+i))
+		g := verif.Go("reply-A", func() { berr = s.sendMsg(r) })
+		verif.Quiesce()
+		if !g.Done() {
+			blocked = g
+		}
+	}
+	if blocked == nil {
+		verif.Assume(false)
+	}
+	t0 := verif.Now()
+	// B arrives from the other peer and is received on the same object while the reply to A still waits
+	p1.Deliver([]byte{0x80, 0, 0xB, 1, 'b'})
+	verif.Quiesce()
+	var mb *mangos.Message
+	var eb error
+	gb := verif.Go("recv-B", func() { mb, eb = s.recvMsg() })
+	verif.Quiesce()
+	verif.RunClockTo(t0 + D)
+	verif.Assert(blocked.Done(), lab+"/waiting-reply-hangs-beyond-its-deadline")
+	_ = berr
+	if gb.Done() && eb == nil {
+		verif.Assert(len(mb.Body) == 1 && mb.Body[0] == 'b', lab+"/request-B-changed")
+		rb := mangos.NewMessage(2)
+		rb.Body = append(rb.Body, 'B', '!')
+		gs := verif.Go("reply-B", func() {
+			if s.sendMsg(rb) != nil {
+				rb.Free()
+			}
+		})
+		verif.Quiesce()
+		_ = gs
+		verif.Reach("replied-to-B")
+	}
+	p0.SendMode = vt.SendOK
+	for i := 0; i < 8; i++ {
+		p0.Release()
+	}
+	verif.Quiesce()
+	for _, r := range p0.Sent {
+		verif.Assert(len(r.H) == 4 && r.H[2] == 0xA, lab+"/frame-on-the-stalled-connection-carries-a-header-of-another-connections-request")
+		verif.Assert(len(r.B) == 2 && r.B[0] == 'A', lab+"/reply-to-another-connections-request-written-to-the-stalled-connection")
+	}
+	for _, r := range p1.Sent {
+		verif.Assert(len(r.H) == 4 && r.H[2] == 0xB, lab+"/frame-on-the-second-connection-carries-a-header-of-another-connections-request")
+		verif.Assert(len(r.B) == 2 && r.B[0] == 'B', lab+"/reply-to-another-connections-request-written-to-the-second-connection")
+	}
+	verif.Assert(len(p1.Sent) <= 1, lab+"/reply-to-B-more-than-once")
+	verif.Reach("blocked-reply-checked")
 	sock.Close()
 }
